@@ -21,7 +21,7 @@ import (
 
 //verif:include ../dnsdata/rdb/zz_verif_model.go
 //verif:include ../db/zz_verif_world.go
-//verif:harness H20_chain property=C20 native=no quick=layout=2,whoami=1,any=1,maxans=2;layout=0,whoami=0,any=0,maxans=1 thorough=layout=1,whoami=1,any=0,maxans=3;layout=2,whoami=0,any=1,maxans=1;layout=0,whoami=1,any=1,maxans=2
+//verif:harness H20_chain property=C20 native=no quick=layout=2,whoami=1,any=1,maxans=2;layout=0,whoami=0,any=0,maxans=1;layout=1,whoami=0,any=0,maxans=2 thorough=layout=1,whoami=1,any=0,maxans=3;layout=2,whoami=0,any=1,maxans=1;layout=0,whoami=1,any=1,maxans=2
 //verif:subst H20_chain github.com/facebookincubator/dns/dnsrocks/dnsserver.typeToStatsKey github.com/facebookincubator/dns/dnsrocks/dnsserver.VerifStatsKeyStub
 //verif:subst H20_chain (*github.com/facebookincubator/dns/dnsrocks/fbserver.Server).initUDPServer github.com/facebookincubator/dns/dnsrocks/fbserver.verifInitUDP
 //verif:subst H20_chain (*github.com/facebookincubator/dns/dnsrocks/fbserver.Server).initTCPServer github.com/facebookincubator/dns/dnsrocks/fbserver.verifInitTCP
